@@ -5,8 +5,8 @@
    flags; [spec_ty] excludes the parser-internal NONE/GENERIC shapes;
    [pure_ty] = the value kinds the specification names: constants and empty
    literals (no Fixed flag) and variables (Fixed at the top, no empty leaf). *)
-From Coq Require Import List Bool.
-From EvyV Require Import Base TypesSyntax Types TypesOld TypesSpec TypesSpecProofs TypesProofs.
+From Coq Require Import List Bool String.
+From EvyV Require Import Base TypesSyntax Types TypesOld TypesSpec TypesSpecProofs TypesProofs TypesBuiltin TypesBuiltinProofs.
 Import ListNotations.
 
 (* assignability, all types at any depth *)
@@ -217,6 +217,29 @@ Theorem C04_tc_leaf_rigid : forall e t err,
 Proof. exact tc_leaf_rigid. Qed.
 Print Assumptions C04_tc_leaf_rigid.
 
+(* a call result is a variable-like value whatever declares the function: for every result type that can be
+   written, and so for every row of the built-in table regenerated from evaluator.BuiltinDecls() (Gen/BuiltinSigs.v,
+   resolved by name in TypesBuiltin.v): the node is a rigid leaf of the result type, the specification classes it
+   as a variable, and a composite result ([]string of split) is accepted by the identical type and any only *)
+Theorem C04_call_result_is_variable : forall t,
+  closed t = true ->
+  tc (ECall t) = ONode (NLeaf (fixed_type (embed t))) false /\
+  spec_tc (ECall t) = Some (KVar, t) /\
+  (composite t = true -> forall T, spec_ty T = true ->
+     (accepts T (fixed_type (embed t)) = true <-> Assignable KVar (erase T) t)).
+Proof. exact call_result_is_variable. Qed.
+Print Assumptions C04_call_result_is_variable.
+
+Theorem C04_builtin_call_result_is_variable : forall name t,
+  builtin_ret name = Some t ->
+  closed t = true /\
+  tc (ECall t) = ONode (NLeaf (fixed_type (embed t))) false /\
+  spec_tc (ECall t) = Some (KVar, t) /\
+  (composite t = true -> forall T, spec_ty T = true ->
+     (accepts T (fixed_type (embed t)) = true <-> erase T = t \/ erase T = SAny)).
+Proof. exact builtin_call_result_is_variable. Qed.
+Print Assumptions C04_builtin_call_result_is_variable.
+
 (* … so the former witnesses are type errors or accepted now *)
 Theorem C04_wrap_former_witnesses_ok :
   check (CAssign (SArr SAny)) (ECall (SArr SNum)) = Reject /\
@@ -305,6 +328,17 @@ Example C04_ex_loop_variable :
   check (CAssign (SArr SAny)) (EArr [ELoopVar (EVar (SArr (SArr SNum)))]) = Reject /\
   check (CAssign (SArr SAny)) (ELoopVar (EVar (SArr (SArr SNum)))) = Reject /\
   check CDecl (EArr [ELoopVar (EVar (SArr (SArr SNum))); EArr [ELitStr]]) = Accept (TArr true TAny) (TArr false TAny).
+Proof. vm_compute. repeat split; reflexivity. Qed.
+
+(* split is a row of the regenerated table with a composite result: a:[]any / a = split "a b" " " is a type error,
+   [(split …)] is not assignable to []any either, and [(split …) [1]] is inferred as []any *)
+Local Open Scope string_scope.
+Example C04_ex_builtin_call :
+  builtin_ret (s_ "split") = Some (SArr SString) /\
+  check (CAssign (SArr SAny)) (ECall (SArr SString)) = Reject /\
+  check (CAssign (SArr SAny)) (EArr [EGroup (ECall (SArr SString))]) = Reject /\
+  check (CAssign (SArr SString)) (ECall (SArr SString)) = Accept (TArr true TString) (TArr true TString) /\
+  check CDecl (EArr [EGroup (ECall (SArr SString)); EArr [ELitNum]]) = Accept (TArr true TAny) (TArr false TAny).
 Proof. vm_compute. repeat split; reflexivity. Qed.
 
 (* range 0 6 "2" is rejected; range 0 6 2 accepted; four operands rejected; a none-typed operand of == rejected *)
